@@ -68,8 +68,11 @@ def cases(ctx):
             key = None
         elif r < 0.6 or nf == 1:
             key = rng.choice(hdr)
-            if rng.random() < 0.2:
+            r2 = rng.random()
+            if r2 < 0.2:
                 key = hdr.index(key)
+            elif r2 < 0.32:
+                key = rng.choice([(key,), [key], (hdr.index(key),)])      # a one-element sequence selects the same single field
         else:
             key = tuple(rng.sample(hdr, rng.randint(2, min(3, nf))))
             if rng.random() < 0.3:
@@ -80,7 +83,8 @@ def cases(ctx):
         if rng.random() < 0.3:
             kw['missing'] = rng.choice(pool)
         if nf > 1 and rng.random() < 0.3:
-            kw[rng.choice(['include', 'exclude'])] = rng.choice([rng.choice(hdr), tuple(rng.sample(hdr, rng.randint(1, nf)))])
+            kw[rng.choice(['include', 'exclude'])] = rng.choice([rng.choice(hdr), tuple(rng.sample(hdr, rng.randint(1, nf))),
+                                                                  list(rng.sample(hdr, rng.randint(1, nf)))])
             if rng.random() < 0.2:
                 kw['include'], kw['exclude'] = rng.choice(hdr), rng.choice(hdr)      # both given: exclude overrides include
         if rng.random() < 0.25:
